@@ -38,4 +38,5 @@ for C in $P "$@"; do
   echo "$C: $(echo "$out" | tail -1)"
 done
 echo "SUMMARY demo_with=$with demo_without=$without checks:$res" | tee -a $log
+echo "$(date -u +%FT%TZ) verif=$(git -C $V rev-parse --short HEAD) demo_with=$with demo_without=$without checks:$res" >> $D/history.log
 true
